@@ -33,7 +33,7 @@ func c03Universe(which int) []TNode {
 }
 
 // universe below an out-of-tree directory reached through src/ext (dereferencing)
-func c03ExtUniverse() []TNode {
+func c03ExtUniverse(extAt string) []TNode {
 	ns := c03Universe(1)
 	var out []TNode
 	for _, n := range ns {
@@ -42,8 +42,13 @@ func c03ExtUniverse() []TNode {
 		}
 		out = append(out, TNode{Path: "out/u/" + strings.TrimPrefix(n.Path, "src/"), Kind: "file", Body: n.Body})
 	}
-	out = append(out, TNode{Path: "src/ext", Kind: "link", Target: "../out/u"}, TNode{Path: "src/b", Kind: "file", Body: "b"}, TNode{Path: "src/a/b", Kind: "file", Body: "a/b"},
+	out = append(out, TNode{Path: "src/" + extAt, Kind: "link", Target: strings.Repeat("../", strings.Count(extAt, "/")+1) + "out/u"}, TNode{Path: "src/b", Kind: "file", Body: "b"},
 		TNode{Path: "src/zfile", Kind: "file", Body: "zfile"}, TNode{Path: "src/zdir/f", Kind: "file", Body: "zdir/f"}) // siblings sorting after the link
+	if extAt != "a/b" {
+		out = append(out, TNode{Path: "src/a/b", Kind: "file", Body: "a/b"})
+	} else {
+		out = append(out, TNode{Path: "src/a/a", Kind: "file", Body: "a/a"}) // the link sits below a real directory, next to a file
+	}
 	return out
 }
 
@@ -82,7 +87,15 @@ type c03Consumer struct {
 	Ignore bool
 	Deref  bool
 	Ext    bool
+	ExtAt  string // archive path of the link to the out-of-tree directory ("ext" when empty)
 	Legacy bool
+}
+
+func (c c03Consumer) extAt() string {
+	if c.ExtAt == "" {
+		return "ext"
+	}
+	return c.ExtAt
 }
 
 func RunC03(tier string) int {
@@ -95,6 +108,8 @@ func RunC03(tier string) int {
 	pool := core.NewPool(0)
 	consumers := []c03Consumer{{Name: "Pack+ignore", Ignore: true}, {Name: "Pack+ignore+deref(ext dir)", Ignore: true, Deref: true, Ext: true},
 		{Name: "Pack no-ignore", Ignore: false}, {Name: "slug.Pack legacy", Legacy: true}}
+	// the same, with the link one level down (the rules must see the whole archive path a/b/..., not the link's own name)
+	nestedExt := c03Consumer{Name: "Pack+ignore+deref(ext dir below a/)", Ignore: true, Deref: true, Ext: true, ExtAt: "a/b"}
 
 	type job struct {
 		rules    []string
@@ -115,7 +130,7 @@ func RunC03(tier string) int {
 			j := jobs[i]
 			var nodes []TNode
 			if j.cons.Ext {
-				nodes = c03ExtUniverse()
+				nodes = c03ExtUniverse(j.cons.extAt())
 			} else {
 				nodes = c03Universe(j.universe)
 			}
@@ -138,7 +153,7 @@ func RunC03(tier string) int {
 		}, func(i int, r core.Result) {
 			j := jobs[i]
 			rep.Evaluations++
-			desc := fmt.Sprintf("consumer=%s universe=%d rules=%q final-newline=%v", j.cons.Name, j.universe, j.rules, !j.noNL)
+			desc := fmt.Sprintf("consumer=%s universe=%d rules=%s final-newline=%v", j.cons.Name, j.universe, rulesDesc(j.rules), !j.noNL)
 			if j.special != "" {
 				desc = fmt.Sprintf("consumer=%s universe=%d rule file is a %s (only the built-in rules can apply)", j.cons.Name, j.universe, j.special)
 			}
@@ -183,11 +198,11 @@ func RunC03(tier string) int {
 				case strings.HasPrefix(n.Path, "src/"):
 					ap = strings.TrimPrefix(n.Path, "src/")
 				case strings.HasPrefix(n.Path, "out/u/"):
-					ap = "ext/" + strings.TrimPrefix(n.Path, "out/u/")
+					ap = j.cons.extAt() + "/" + strings.TrimPrefix(n.Path, "out/u/")
 				default:
 					continue
 				}
-				if strings.HasPrefix(ap, "ext/") && applies && ref.Excluded(rules, "ext") {
+				if j.cons.Ext && strings.HasPrefix(ap, j.cons.extAt()+"/") && applies && ref.Excluded(rules, j.cons.extAt()) {
 					// the link that brings these paths into the slug is itself excluded by
 					// its own path: nothing is demanded for what it would have brought in
 					continue
@@ -229,6 +244,7 @@ func RunC03(tier string) int {
 	}
 
 	var three3 [][]string
+	var longAndBig [][]string
 	all := c03Rules(false)
 	coreRules := c03Rules(true)
 	mk := func(ruleFiles [][]string, universes []int, cons []c03Consumer) []job {
@@ -256,6 +272,7 @@ func RunC03(tier string) int {
 		one = append(one, []string{r})
 	}
 	runJobs("1-rule files (full alphabet)", mk(one, []int{1, 2}, consumers))
+	runJobs("1-rule files (full alphabet), dereferenced dir below a/", mk(one, []int{1}, []c03Consumer{nestedExt}))
 	{
 		// the rule file is there but is not a regular file; and lines far longer than any buffer
 		var js []job
@@ -268,6 +285,14 @@ func RunC03(tier string) int {
 		long := func(n int, tail string) string { return "#" + strings.Repeat("x", n-1-len(tail)) + tail }
 		longFiles := [][]string{{long(4097, "b")}, {long(4100, "*a*")}, {long(5000, ""), "a/"}, {"a/", long(8193, "!a/b")}, {long(70000, "b"), "a/"}, {"b", long(70000, "")},
 			{strings.Repeat("x", 4096) + "b"}, {"a/", strings.Repeat("y", 70000)}}
+		// rule files of more than 1 and 2 MiB made of ordinary lines, the deciding rules first and last
+		pad := make([]string, 0, 45000)
+		for k := 0; k < 45000; k++ {
+			pad = append(pad, "# padding padding padding padding padding 0123456789")
+		}
+		bigFiles := [][]string{append(append([]string{}, pad[:22000]...), "b"), append(append([]string{"a/"}, pad[:22000]...), "!a/b"), append(append([]string{"a/"}, pad...), "!a/b", "b")}
+		longFiles = append(longFiles, bigFiles...)
+		longAndBig = longFiles
 		js = append(js, mk(longFiles, []int{1}, consumers[:2])...)
 		runJobs("rule file that is not a regular file; very long lines", js)
 	}
@@ -323,10 +348,12 @@ func RunC03(tier string) int {
 			}
 		}
 		runJobs("2-rule files (segments a,b,*,a*,**,ab), deref consumer + universe 2", append(mk(twoHalf, []int{1}, consumers[1:2]), mk(twoHalf, []int{2}, consumers[:1])...))
+		runJobs("2-rule files (segments a,b,*,a*,**,ab), dereferenced dir below a/", mk(twoHalf, []int{1}, []c03Consumer{nestedExt}))
 		two = twoHalf
 	} else {
 		// quick: 2-rule files over the core alphabet; the second universe only for plain Pack
 		runJobs("2-rule files (core alphabet)", mk(two, []int{1}, consumers[:2]))
+		runJobs("2-rule files (core alphabet), dereferenced dir below a/", mk(two, []int{1}, []c03Consumer{nestedExt}))
 	}
 	{
 		var three [][]string
@@ -372,7 +399,7 @@ func RunC03(tier string) int {
 			return bargs[i]
 		}, func(i int, r core.Result) {
 			rep.Evaluations++
-			desc := fmt.Sprintf("consumer=bundle-package universe=%d rules=%q", bjobs[i].u, bjobs[i].rules)
+			desc := fmt.Sprintf("consumer=bundle-package universe=%d rules=%s", bjobs[i].u, rulesDesc(bjobs[i].rules))
 			if r.Hung || r.Crashed {
 				rep.Violation("sourcebundle.Builder/hang-or-crash", desc, "build", bargs[i])
 				return
@@ -421,6 +448,7 @@ func RunC03(tier string) int {
 		fmt.Printf("  set %s: runs=%d (failed builds, no verdict: %d)\n", name, len(bjobs), failed)
 	}
 	runBundle("bundle: misc", misc, []int{1, 2})
+	runBundle("bundle: very long lines, rule files above 1 MiB", longAndBig, []int{1})
 	runBundle("bundle: 3-rule files", three3, []int{1})
 	runBundle("bundle: 1-rule files (full alphabet)", one, []int{1, 2})
 	if thorough {
@@ -430,7 +458,7 @@ func RunC03(tier string) int {
 	}
 	rep.Extra["sets"] = setStats
 	rep.Extra["rule_alphabet"] = len(all)
-	rep.Rule = "every rule file of 1 rule (880-rule alphabet: 1-2 segment patterns over {a,b,*,a*,?b,**,a+b,a.b,(a),ab} × anchoring × trailing slash × negation), 2 rules (core alphabet quick / full thorough), 3 rules (12-rule core, thorough) × 2 path universes × consumers {Pack+ignore, Pack+ignore+deref through an out-of-tree dir, Pack without ignore, legacy slug.Pack, package fetched into a bundle}; oracle: own-path verdict of a segment-wise matcher (ref/glob) for every non-directory path. Non-trivial = the rule file changes at least one verdict relative to the built-in rules; distinct by shipped set."
+	rep.Rule = "every rule file of 1 rule (880-rule alphabet: 1-2 segment patterns over {a,b,*,a*,?b,**,a+b,a.b,(a),ab} × anchoring × trailing slash × negation), 2 rules (core alphabet quick / full thorough), 3 rules (12-rule core, thorough) × 2 path universes × consumers {Pack+ignore, Pack+ignore+deref through an out-of-tree dir (linked at the top and one level down), Pack without ignore, legacy slug.Pack, package fetched into a bundle}; oracle: own-path verdict of a segment-wise matcher (ref/glob) for every non-directory path. Non-trivial = the rule file changes at least one verdict relative to the built-in rules; distinct by shipped set."
 	rep.Assumptions = []string{"verdicts are demanded for non-directory paths only", "'**' is used as a whole segment only", "a failed bundle build is no verdict (counted)"}
 	return rep.Finish()
 }
@@ -450,7 +478,7 @@ func c03Classify(rules []string, c c03Consumer, wrongIn, wrongOut []string) stri
 	if c.Ext {
 		onlyExt := true
 		for _, p := range append(append([]string{}, wrongIn...), wrongOut...) {
-			if !strings.HasPrefix(p, "ext/") {
+			if !strings.HasPrefix(p, c.extAt()+"/") {
 				onlyExt = false
 			}
 		}
@@ -468,4 +496,27 @@ func c03Classify(rules []string, c c03Consumer, wrongIn, wrongOut []string) stri
 		parts = append(parts, "excluded-file-shipped")
 	}
 	return strings.Join(parts, "/")
+}
+
+
+// rulesDesc prints a rule file for a report: runs of identical lines are collapsed and very long lines abbreviated.
+func rulesDesc(rules []string) string {
+	var parts []string
+	for i := 0; i < len(rules); {
+		j := i
+		for j < len(rules) && rules[j] == rules[i] {
+			j++
+		}
+		r := rules[i]
+		if len(r) > 120 {
+			r = fmt.Sprintf("%s…(%d bytes)…%s", r[:40], len(r), r[len(r)-20:])
+		}
+		q := fmt.Sprintf("%q", r)
+		if j-i > 1 {
+			q += fmt.Sprintf("×%d", j-i)
+		}
+		parts = append(parts, q)
+		i = j
+	}
+	return "[" + strings.Join(parts, " ") + "]"
 }
